@@ -157,6 +157,20 @@ def check(tier):
         if (r[0] == 0) != rd_ok:
             lang_bad.append((s, r, acc))
         n_acc += 1 if rd_ok else 0
+    # sentences that need a DEEP stack or are LONG (the property has no bound on either): valid by construction
+    deep, deep_bad = [], []
+    head = ["grammar", "IDENT", ";", "IDENT", "="]
+    for n_ in ((300, 700, 1500, 4000) if tier == "quick" else (300, 511, 700, 1023, 1024, 1500, 4000, 20000)):
+        deep.append(("%d alternatives (| groups to the right)" % n_, head + ["IDENT"] + ["|", "IDENT"] * n_ + [";"]))
+        deep.append(("%d juxtaposed operands" % n_, head + ["IDENT"] * n_ + [";"]))
+        deep.append(("%d declarations" % n_, ["grammar", "IDENT"] + ["IDENT", "=", "STRING", ";"] * n_))
+        for o_, c_ in (("(", ")"), ("[", "]"), ("{", "}"), ("{{", "}}")):
+            deep.append(("%d nested %s %s" % (n_, o_, c_), head + [o_] * n_ + ["IDENT"] + [c_] * n_ + [";"]))
+        deep.append(("%d handles" % n_, ["grammar", "IDENT", "@left"] + ["STRING"] * n_ + [";"]))
+    dres = hook.call({"op": "parse_many", "seqs": [d_[1] for d_ in deep]}).get("results", [])
+    for (what, s_), r_ in zip(deep, dres + [None] * (len(deep) - len(dres))):
+        if r_ is None or r_[0] != 0:
+            deep_bad.append((what, s_, r_))
     # trees: the parser builds the tree the precedence list dictates
     tree_bad, n_tree = [], 0
     for s in valid_streams:
@@ -221,6 +235,11 @@ def check(tier):
     for s in oracle_bad[:2]:
         rep.failure("oracle", {"oracle"}, {"tokens": s, "why": "the recursive-descent reading accepts a sequence that is not a sentence of the documented grammar"})
     rep.obligation("disambiguation: ParseAndBuildAST builds the dictated tree on %d sentences" % n_tree, not tree_bad)
+    rep.obligation("deep and long sentences are accepted (%d sentences, up to %d tokens)" % (len(deep), max(len(d_[1]) for d_ in deep)), not deep_bad)
+    for what, s_, r_ in deep_bad[:2]:
+        rep.failure("deep", {"deep"}, {"what": what, "tokens_head": s_[:12], "tokens_length": len(s_), "parser": r_,
+                                       "input_text": "grammar g;a=b" + "|b" * (len(s_) // 2) + ";" if "alternatives" in what else None,
+                                       "why": "a sentence of the documented grammar (any depth, any length) is rejected"})
 
     for s, r, acc in lang_bad[:3]:
         rep.failure("language", {"language"}, {"tokens": s, "parser": r, "sentence_of_documented_grammar": acc})
